@@ -30,6 +30,18 @@ type Config struct {
 	Publishers [][]int // event ids per publisher; ids are unique over the configuration
 	Subs       []SubSpec
 	Closers    []string // "bus" or a subscriber name: a goroutine that calls Close() on it concurrently
+
+	// Long-backlog family: Backlog=N>0 means one publisher publishing N events in a row. The
+	// subscribers are created one after the other by the root goroutine BEFORE the publisher
+	// starts (so every event is mandatory for every subscriber and the publisher needs no
+	// scheduling point to sample who is subscribed). The executions are thousands of transitions
+	// long and histories never merge (every select / map-order decision is part of a history), so
+	// this family is explored with DEVIATION bounding: all schedules that differ from the canonical
+	// run-until-blocked schedule in at most Bound decisions, sharded by the depth of the first one.
+	Backlog int
+	Bound   int
+	Shard   int
+	NShards int
 }
 
 type pubRec struct {
@@ -139,6 +151,11 @@ func (in *instance) body() {
 	in.bus = pubsub.NewBus()
 	for _, st := range in.subs {
 		st := st
+		if in.cfg.Backlog > 0 && !in.free {
+			in.creator(st) // sequential set-up
+			vs.Label("")
+			continue
+		}
 		in.goClient(func() { in.creator(st) })
 	}
 	for p := range in.pubs {
@@ -157,7 +174,9 @@ func (in *instance) publisher(p int) {
 		// The read of the shared "who has subscribed" mask must be a scheduling point of its own:
 		// "Publish began after Subscribe returned" has to be explorable independently of where the
 		// previous Publish completed. The value read is folded into the history (pruning soundness).
-		vs.Yield()
+		if in.cfg.Backlog == 0 || in.free {
+			vs.Yield()
+		}
 		rec.mask = atomic.LoadUint32(&in.subDone)
 		vs.Note("mask", rec.mask)
 		rec.began = true
@@ -317,6 +336,14 @@ func contains(xs []int, x int) bool {
 		}
 	}
 	return false
+}
+
+func sum(xs []int) int {
+	t := 0
+	for i, x := range xs {
+		t += (i + 1) * x // position-sensitive
+	}
+	return t
 }
 
 func indexOf(xs []int, x int) int {
@@ -504,6 +531,19 @@ func (in *instance) check(r *vs.Result) (string, []string) {
 	fmt.Fprintf(&b, "%s|", r.Status)
 	for p, recs := range in.pubs {
 		fmt.Fprintf(&b, "P%d[", p)
+		if in.cfg.Backlog > 0 {
+			// summary (the full list would be N entries long): how many returned ok, first that did not
+			nok, firstBad := 0, "none"
+			for _, rec := range recs {
+				if rec.ended && rec.err == nil {
+					nok++
+				} else if firstBad == "none" && rec.began {
+					firstBad = fmt.Sprintf("%d:%s", rec.ev, map[bool]string{true: errStr(rec.err), false: "pending"}[rec.ended])
+				}
+			}
+			fmt.Fprintf(&b, "published-ok=%d first-not-ok=%s]", nok, firstBad)
+			continue
+		}
 		for _, rec := range recs {
 			if !rec.began {
 				continue
@@ -524,7 +564,11 @@ func (in *instance) check(r *vs.Result) (string, []string) {
 		case st.err != nil:
 			b.WriteString(errStr(st.err))
 		default:
-			fmt.Fprintf(&b, "got%v", st.got)
+			if in.cfg.Backlog > 0 && len(st.got) > 8 {
+				fmt.Fprintf(&b, "got[%d events %d..%d sum=%d]", len(st.got), st.got[0], st.got[len(st.got)-1], sum(st.got))
+			} else {
+				fmt.Fprintf(&b, "got%v", st.got)
+			}
 			if st.spec.Parent != "" {
 				fmt.Fprintf(&b, " n0=%d n1=%d", st.n0, st.n1)
 			}
